@@ -78,8 +78,17 @@ Definition succ_ok (t f d : nat) (os : list nat) : bool :=
 Definition exc_ok (t f : nat) : bool :=
   match cert t with CExc f' => f =? f' | _ => false end.
 
+(* the handler of a is a certified handler entry of f that lies AFTER a: handlers follow the
+   code they guard (body -> first clause, clause i -> clause i+1, last clause -> RETHROW), so
+   following handler links strictly increases the address (Verifier/Unwind.v,
+   handler_chain_finite) *)
 Definition handler_ok (a f : nat) : bool :=
-  match handler a with Some h => exc_ok h f | None => false end.
+  match handler a with Some h => (a <? h) && exc_ok h f | None => false end.
+
+(* the LABEL a handler block is entered at is the last address of the block it closes, so its
+   own table entry is that LABEL itself: not before a *)
+Definition handler_ok_le (a f : nat) : bool :=
+  match handler a with Some h => (a <=? h) && exc_ok h f | None => false end.
 
 Definition entry_cert_ok (g : nat) : bool :=
   match cert g with
@@ -128,8 +137,10 @@ Definition check_exc (a f : nat) (i : ainstr) : bool :=
   match i with
   (* the shape machine lets every AOp fault (observed ip' <> a+1 is read as a jump to the
      handler of a), so the handler of a handler-entry LABEL must be certified as well *)
-  | AOp [] 0 0 => exc_ok (S a) f && handler_ok a f
-  | AClear n => (n =? np f) && negb (is_ffi f) && is_entry f && succ_ok (S a) f 0 []
+  | AOp [] 0 0 => exc_ok (S a) f && handler_ok_le a f
+  (* a clause: CLEAR_STACK nparams; a fault inside it (and the "does not match" exit, by the
+     emitter's layout) goes to the next handler, which lies after it *)
+  | AClear n => (n =? np f) && negb (is_ffi f) && is_entry f && succ_ok (S a) f 0 [] && handler_ok a f
   | ARethrow => is_entry f
   | AUnhandled => f =? 0
   | _ => false
